@@ -9,38 +9,40 @@
   `PartialEq`/`PartialOrd` impls compare the storage pointer first (checked by the harness).
 -/
 import TT.Model.Forest
+import TT.Lemmas.Forest
 
 namespace TT
 
 open Storage
 
 theorem C17_wf_empty : Storage.WF {} := by
-  sorry
+  exact wf_empty
 
 /-- Preservation by the storage operations of layer.rs. -/
 theorem C17_wf_pushSpan (st st' : Storage) (mt : Nat) (vs : TVals) (p : Option Nat) (id : Nat)
     (h : st.WF) (hp : st.pushSpan mt vs p = some (st', id)) : st'.WF ∧ id = st.spans.length := by
-  sorry
+  obtain ⟨hid, v⟩ := pushSpan_view hp
+  exact ⟨wf_pushSpan h v, hid⟩
 
 theorem C17_wf_pushEvent (st st' : Storage) (mt : Nat) (vs : TVals) (p : Option Nat)
     (h : st.WF) (hp : st.pushEvent mt vs p = some st') : st'.WF := by
-  sorry
+  exact wf_pushEvent h (pushEvent_view hp)
 
 /-- Updates that keep a span's links (`on_span_enter`, `on_span_exit`, `on_span_closed`,
     `on_record`) preserve well-formedness; so does adding a follows-from edge to a valid id. -/
 theorem C17_wf_update (st st' : Storage) (id : Nat) (f : CapSpan → CapSpan) (h : st.WF)
     (hf : ∀ s, (f s).parent = s.parent ∧ (f s).children = s.children ∧ (f s).events = s.events ∧ (f s).follows = s.follows)
     (hu : st.update id f = some st') : st'.WF := by
-  sorry
+  exact wf_update h hf hu
 
 theorem C17_wf_follows (st st' : Storage) (id fid : Nat) (h : st.WF) (hfid : fid < st.spans.length)
     (hu : st.update id (fun s => { s with follows := s.follows ++ [fid] }) = some st') : st'.WF := by
-  sorry
+  exact wf_follows h hfid hu
 
 /-- Every storage produced by any program under any stack of capture layers is well-formed. -/
 theorem C17_wf_reachable (filters : List LFilter) (global : Option Nat) (sites : List CallSite) (ops : List POp) :
     ∀ st ∈ (captureRun filters global sites ops).storages, st.WF := by
-  sorry
+  exact wf_reachable filters global sites ops
 
 /-! ### Laws on well-formed storages -/
 
@@ -53,7 +55,7 @@ theorem C17_roots (st : Storage) (h : st.WF) :
     (∀ i, i ∈ st.rootSpans ↔ (i < st.spans.length ∧ st.parentOf i = none)) ∧
     (∀ j, j ∈ st.rootEvents ↔ (j < st.events.length ∧ st.eventParent j = none)) ∧
     st.rootSpans.Pairwise (· < ·) ∧ st.rootEvents.Pairwise (· < ·) := by
-  sorry
+  exact roots_laws st h
 
 /-- The ancestor chain is the parent chain: it is not cut short by the fuel of the model
     (nor, in the code, by anything but a span without parent). -/
@@ -61,41 +63,60 @@ theorem C17_ancestors_unfold (st : Storage) (h : st.WF) (i : Nat) :
     st.ancestors i = match st.parentOf i with
       | none => []
       | some p => p :: st.ancestors p := by
-  sorry
+  exact ancestors_unfold st h i
 
 /-- Every ancestor chain is finite — strictly decreasing indices below the span — and ends at a
     root. -/
 theorem C17_ancestors_finite (st : Storage) (h : st.WF) (i : Nat) :
     (i :: st.ancestors i).Pairwise (· > ·) ∧
     st.parentOf ((i :: st.ancestors i).getLast (by simp)) = none := by
-  sorry
+  refine ⟨?_, ancestors_last st h i _⟩
+  exact List.Pairwise.cons (fun x hx => ancestors_lt st h i x hx) (ancestors_pairwise st h i)
 
 /-- The iterator of iter.rs yields exactly the pre-order traversal. -/
 theorem C17_descendants_preorder (st : Storage) (h : st.WF) (i : Nat) :
     st.descendants i = st.preorder i := by
-  sorry
+  exact descendants_eq_pre st h i
 
 /-- Descendants of a span are exactly the spans having it among their ancestors, each once,
     parents before children. -/
-theorem C17_descendants_iff_ancestor (st : Storage) (h : st.WF) (s t : Nat) (hs : s < st.spans.length) :
+theorem C17_descendants_iff_ancestor (st : Storage) (h : st.WF) (s t : Nat) :
     (t ∈ st.descendants s ↔ (t < st.spans.length ∧ s ∈ st.ancestors t)) := by
-  sorry
+  rw [descendants_eq_pre st h s]
+  exact mem_pre_children st h s t
 
 theorem C17_descendants_nodup (st : Storage) (h : st.WF) (s : Nat) : (st.descendants s).Nodup := by
-  sorry
+  rw [descendants_eq_pre st h s]
+  exact pre_nodup st h _ (sib_children st h s)
 
 theorem C17_descendants_parents_first (st : Storage) (h : st.WF) (s p c : Nat)
     (hc : c ∈ st.descendants s) (hp : st.parentOf c = some p) (hps : p ≠ s) :
     ∃ l₁ l₂ l₃, st.descendants s = l₁ ++ p :: l₂ ++ c :: l₃ := by
-  sorry
+  rw [descendants_eq_pre st h s] at hc ⊢
+  obtain ⟨hcn, hsc⟩ := (mem_pre_children st h s c).1 hc
+  rw [ancestors_of_some st h hp] at hsc
+  have hpc := h.parent_lt c p hp
+  have hsp : s ∈ st.ancestors p := by
+    rcases List.mem_cons.1 hsc with e | e
+    · exact absurd e.symm hps
+    · exact e
+  have hpm : p ∈ pre st (st.childrenOf s) := (mem_pre_children st h s p).2 ⟨by omega, hsp⟩
+  exact pre_parents_first st h _ (sib_children st h s) p c hpm hp hcn
 
 /-- Descendant events are exactly the events of the descendants, in traversal order. -/
 theorem C17_descendant_events (st : Storage) (i : Nat) :
     st.descendantEvents i = (st.descendants i).flatMap st.eventsOf := rfl
 
-theorem C17_descendant_events_iff (st : Storage) (h : st.WF) (s j : Nat) (hs : s < st.spans.length) :
+theorem C17_descendant_events_iff (st : Storage) (h : st.WF) (s j : Nat) :
     j ∈ st.descendantEvents s ↔ (j < st.events.length ∧ ∃ p, st.eventParent j = some p ∧ p ∈ st.descendants s) := by
-  sorry
+  unfold Storage.descendantEvents
+  rw [List.mem_flatMap]
+  constructor
+  · rintro ⟨p, hp, hj⟩
+    obtain ⟨h1, h2⟩ := (h.event_iff p j).1 hj
+    exact ⟨h1, p, h2, hp⟩
+  · rintro ⟨h1, p, h2, hp⟩
+    exact ⟨p, hp, (h.event_iff p j).2 ⟨h1, h2⟩⟩
 
 /-- Items are ordered by capture order, parents before children. -/
 theorem C17_parent_before_child (st : Storage) (h : st.WF) (i p : Nat) (hp : st.parentOf i = some p) : p < i :=
